@@ -165,8 +165,18 @@ type localType struct {
 func (c *compiler) localTypeIndex(name string) (int, bool) {
 	for n := len(c.localTypes) - 1; n >= 0; n-- {
 		lt := c.localTypes[n]
-		if lt.name != name || lt.locals != c.Locals {
+		if lt.name != name {
 			continue
+		}
+		if lt.locals != c.Locals {
+			// a type of an enclosing function: a function literal does not capture the
+			// variables of that function, but a type is no variable, its name stays in
+			// scope (in the signature and in the body) unless a parameter or a local
+			// of the literal itself has that name
+			if c.Locals.Exists(name) {
+				return 0, false
+			}
+			return lt.global, true
 		}
 		if c.Locals.Exists(name) && c.Locals.Index(name) >= lt.slots {
 			return 0, false
